@@ -57,11 +57,12 @@ class DirHandler(BaseHandler):
                     self.config,
                     vfs=self.vfs,
                 )
-            except GopherExceptions.FileNotFound:
+                fileentry = handler.getentry()
+            except (GopherExceptions.FileNotFound, OSError):
                 # Dangling symlink, special file, file deleted since the
-                # listdir, insecure name: leave just this entry out.
+                # listdir (or unreadable when a handler looks inside it),
+                # insecure name: leave just this entry out.
                 continue
-            fileentry = handler.getentry()
             self.prep_entriesappend(file, handler, fileentry)
 
     def prep_entriesappend(
